@@ -236,8 +236,15 @@ class LabReplay:
             self.counts["transitions"] += 1
             pre_key = canon(pre_j)
             if not self.states:
-                self.states[pre_key] = {"objs": self.build_initial(model.state(pre_j)), "depth": 0, "parent": None,
-                                        "fps": None}
+                try:
+                    objs0 = self.build_initial(model.state(pre_j))
+                except Exception as e:      # the library cannot even construct the initial containers
+                    self.states[pre_key] = {"objs": {}, "depth": 0, "parent": None, "fps": {}}
+                    self.ran("C03")
+                    self.report("C03", "initial_objects_cannot_be_built", {"op": "new", "exc": type(e).__name__},
+                                f"building the instance's initial containers raised {type(e).__name__}: {e}", {"op": "init"}, pre_key)
+                    return
+                self.states[pre_key] = {"objs": objs0, "depth": 0, "parent": None, "fps": None}
                 self.counts["states_built"] += 1
             st = self.states.get(pre_key)
             if st is None:
@@ -386,6 +393,8 @@ class LabReplay:
             if overlapping or cls == "degenerate":
                 return
             if cls == "boundary" and not self.boundary_asserted(ctx):
+                return
+            if ev["op"] == "create_solution" and not self.solution_acceptance_asserted(ev):
                 return
             if not out.ok:
                 key2 = dict(key, exc=type(out.exc).__name__)
@@ -747,7 +756,7 @@ class LabReplay:
                 if a.contents.get(s_, 0.0) != b.contents.get(s_, 0.0):
                     self.report("C11", "other_substance_changed", key, f"{out.call}: well {i + 1}: {s_.name} changed from {a.contents.get(s_, 0.0)!r} to {b.contents.get(s_, 0.0)!r}", ev, ctx["pre_key"])
                     return
-            if b.contents.get(solvent, 0.0) < a.contents.get(solvent, 0.0) - self.P.tol(a.contents.get(solvent, 0.0), ctx["k"]):
+            if b.contents.get(solvent, 0.0) < a.contents.get(solvent, 0.0) - self.P.tol(a.contents.get(solvent, 0.0), ctx["k"], float(inst.amount_store_scale(ev["solvent"]))):
                 self.report("C11", "solvent_decreased", key, f"{out.call}: well {i + 1}: solvent went from {a.contents.get(solvent, 0.0)!r} to {b.contents.get(solvent, 0.0)!r}", ev, ctx["pre_key"])
                 return
             mc, _ = self.model_contents(b)
@@ -762,8 +771,8 @@ class LabReplay:
                 got = mc.get(ev["solute"], 0.0) * float(per_unit(ev["solute"], ev["nu"])) / den
                 e = float(rat(ev["t"]))
                 base = float(inst.conc_base(rat(ev["t"]), ev["nu"], ev["du"]))
-                # the stated concentration is rounded by the library to 10 decimals in base units (DESIGN 4.2)
-                if abs(got - e) > (1e-6 + 2e-10 / base) * abs(e):
+                # the stated concentration is rounded by the library to internal_precision decimals in base units (DESIGN 4.2)
+                if abs(got - e) > (1e-6 + 2 * self.P.quantum / base) * abs(e):
                     self.report("C11", "dilute_target_missed", key, f"{out.call}: concentration {got!r} model units, target {e!r}", ev, ctx["pre_key"])
                     return
             if b.volume > b.max_volume + self.P.tol(b.max_volume):
@@ -804,14 +813,178 @@ class LabReplay:
                 self.report("C17", "volume_not_reduced", key, f"{out.call}: well {i + 1}: volume {b.volume!r}, remaining contents give {vol!r}", ev, ctx["pre_key"])
                 return
 
+    # ---- C19: instruction text states the true amounts ---------------------------------------------------------
+    QTY = r"(-?[0-9.]+(?:e[-+]?[0-9]+)?) (n|u|m|)(L|g|mol|U)"
+
+    def std_dim(self, s):
+        return {"liquid": "L", "solid": "g", "enzyme": "U"}[KIND[s]]
+
+    def stated(self, text, dim_ok=("L", "g", "mol", "U")):
+        """'12.3 mL' -> (value in real base units, dimension, precision slack in base units)"""
+        import re
+        m = re.fullmatch(self.QTY, text.strip())
+        if not m or m.group(3) not in dim_ok:
+            return None
+        unit = m.group(2) + m.group(3)
+        mult = float(self.inst_prefix(m.group(2)))
+        prec = self.pp.config.precisions.get(unit, self.pp.config.precisions["default"])
+        return float(m.group(1)) * mult, m.group(3), 0.5 * 10 ** (-prec) * mult * 1.0001
+
+    def inst_prefix(self, p):
+        from inst import PREFIX
+        return PREFIX[p]
+
+    def fact_ok(self, stated, model_amount, dim, n=1):
+        """stated: (value, dim, slack); model_amount: exact amount in model units of dimension dim."""
+        e = float(model_amount * self.inst.base_scale(dim))
+        return abs(stated[0] - e) <= n * stated[2] + 1e-6 * abs(e) + 1e-12
+
     def mon_c19(self, ctx):
-        pass
+        import re
+        ev, out, objs, inst = ctx["ev"], ctx["out"], ctx["objs"], self.inst
+        if not out.ok or ev["res"] != "ok":
+            return
+        op = ev["op"]
+        key = {"op": op}
+        pre, post = ctx["spec_pre"], ctx["spec_post"]
+
+        def last_lines(c, n=1):
+            return (getattr(c, "instructions", "") or "").splitlines()[-n:]
+        if op == "transfer":
+            if ev["overlap"] not in ("none", "disjoint") or ev["cls"] == "degenerate":
+                return
+            self.ran("C19")
+            dn, sn = ev["dn"], ev["sn"]
+            key.update(form=ev["form"], u=ev["u"])
+            dst_wells = self.P.wells_of(out.new[dn])
+            for j in sorted({p[1] for p in ev["pairs"]}):
+                pairs = [p for p in ev["pairs"] if p[1] == j]
+                gain = {s: post[dn]["w"][j - 1]["c"][s] - pre[dn]["w"][j - 1]["c"][s] for s in pre[dn]["w"][j - 1]["c"]}
+                if all(x == 0 for x in gain.values()):
+                    continue
+                lines = last_lines(dst_wells[j - 1], len(pairs))
+                tot = {"L": 0.0, "g": 0.0}
+                slack, dim = 0.0, None
+                for ln, p in zip(lines, pairs):
+                    m = re.fullmatch(r"Transfer (.+?) of (.+) to (.+)", ln)
+                    st = self.stated(m.group(1), ("L", "g")) if m else None
+                    if st is None:
+                        self.report("C19", "transfer_instruction_unreadable", key, f"{out.call}: last instruction of the destination is {ln!r}", ev, ctx["pre_key"])
+                        return
+                    src_c = self.P.wells_of(objs[sn])[p[0] - 1]
+                    if src_c.name not in m.group(2) or dst_wells[j - 1].name not in m.group(3):
+                        self.report("C19", "transfer_instruction_names", key, f"{out.call}: {ln!r} does not name {src_c.name!r} and {dst_wells[j - 1].name!r}", ev, ctx["pre_key"])
+                        return
+                    dim = st[1] if dim in (None, st[1]) else "mixed"
+                    tot[st[1]] += st[0]
+                    slack += st[2]
+                if dim == "mixed":
+                    continue
+                k19 = dict(key, dim=dim, src_kinds=self.kinds_in(pre[sn], {p[0] for p in pairs}))
+                if not self.fact_ok((tot[dim], dim, slack), measure(gain, dim), dim):
+                    self.report("C19", "transfer_amount_misstated", k19,
+                                f"{out.call}: instructions {lines} state {tot[dim]!r} {dim}, actually moved {float(measure(gain, dim) * inst.base_scale(dim))!r} {dim}", ev, ctx["pre_key"])
+                    return
+        elif op in ("fill_to", "dilute"):
+            self.ran("C19")
+            n = ev["n"]
+            wells = ev["wells"] if op == "fill_to" else [1]
+            ys = ev["ys"] if op == "fill_to" else [ev["y"]]
+            key.update(target=self.target_kind(n, ev.get("r", "-")))
+            for i, y in zip(wells, ys):
+                y = rat(y)
+                ln = last_lines(self.P.wells_of(out.new[n])[i - 1])[0] if last_lines(self.P.wells_of(out.new[n])[i - 1]) else ""
+                if op == "dilute" and y == 0:
+                    continue
+                m = re.fullmatch(r"(Fill|Dilute) with (.+?) of (.+)\.", ln)
+                st = self.stated(m.group(2), ("L",)) if m else None
+                if st is None:
+                    self.report("C19", f"{op}_instruction_unreadable", key, f"{out.call}: last instruction is {ln!r}", ev, ctx["pre_key"])
+                    return
+                if m.group(3) != inst.subs[ev["solvent"]].name:
+                    self.report("C19", f"{op}_instruction_names", key, f"{out.call}: {ln!r} does not name the solvent", ev, ctx["pre_key"])
+                    return
+                if not self.fact_ok(st, y * VOLPER[ev["solvent"]], "L"):
+                    self.report("C19", f"{op}_amount_misstated", dict(key, solvent_kind=KIND[ev["solvent"]]),
+                                f"{out.call}: {ln!r}, actually added {float(y * VOLPER[ev['solvent']] * inst.base_scale('L'))!r} L", ev, ctx["pre_key"])
+                    return
+        elif op in ("new", "create_solution"):
+            self.ran("C19")
+            c = out.new[ev["n"]]
+            text = (c.instructions or "").splitlines()[0] if c.instructions else ""
+            want = post[ev["n"]]["w"][0]["c"]
+            portion = None
+            if op == "create_solution" and ev["solvIsVessel"]:
+                m = re.fullmatch(r"Add (.*) to (.+?) of (.+)\.", text)
+                portion = {s: want[s] - (rat(ev["xs"][ev["solutes"].index(s)]) if s in ev["solutes"] else 0) for s in want}
+                want = {s: rat(x) for s, x in zip(ev["solutes"], ev["xs"])}
+            else:
+                m = re.fullmatch(r"Add (.*) to a (.*)container\.", text)
+            if op == "new" and not ev["entries"]:
+                return
+            if not m:
+                self.report("C19", "preparation_instruction_unreadable", key, f"{out.call}: instruction is {text!r}", ev, ctx["pre_key"])
+                return
+            items = {}
+            for part in m.group(1).split(", "):
+                mm = re.fullmatch(r"(.+?) of (.+)", part)
+                st = self.stated(mm.group(1)) if mm else None
+                if st is None:
+                    self.report("C19", "preparation_instruction_unreadable", key, f"{out.call}: cannot read {part!r}", ev, ctx["pre_key"])
+                    return
+                items[mm.group(2)] = st
+            for s_, x in want.items():
+                if x == 0:
+                    continue
+                st = items.get(inst.subs[s_].name)
+                dim = self.std_dim(s_)
+                if st is None or st[1] != dim or not self.fact_ok(st, x * per_unit(s_, dim), dim):
+                    self.report("C19", "preparation_amount_misstated", dict(key, kind=KIND[s_]),
+                                f"{out.call}: instruction {text!r}; {s_} is actually {float(x * per_unit(s_, dim) * inst.base_scale(dim))!r} {dim}", ev, ctx["pre_key"])
+                    return
+            if portion is not None:
+                st = self.stated(m.group(2), ("L",))
+                vol = sum((x * VOLPER[s_] for s_, x in portion.items()), F(0))
+                if st is None or m.group(3) != objs[ev["solvent"]].name or not self.fact_ok(st, vol, "L"):
+                    self.report("C19", "solvent_amount_misstated", key, f"{out.call}: instruction {text!r}; the solvent portion is {float(vol * inst.base_scale('L'))!r} L", ev, ctx["pre_key"])
+        elif op == "create_solution_from":
+            if ev["solvIsVessel"]:
+                return
+            self.ran("C19")
+            c = out.new[ev["n"]]
+            text = (c.instructions or "").splitlines()[-1] if c.instructions else ""
+            m = re.fullmatch(r"Add (.+?) of (.+) to (.+?) of (.+)\.", text)
+            sty = self.stated(m.group(1), ("L",)) if m else None
+            stx = self.stated(m.group(3), ("L",)) if m else None
+            if sty is None or stx is None:
+                self.report("C19", "dilution_instruction_unreadable", key, f"{out.call}: instruction is {text!r}", ev, ctx["pre_key"])
+                return
+            px = {s_: pre[ev["src"]]["w"][0]["c"][s_] - post[ev["src"]]["w"][0]["c"][s_] for s_ in pre[ev["src"]]["w"][0]["c"]}
+            prec = self.pp.config.precisions.get("mL", self.pp.config.precisions["default"])
+            slack = 0.5 * 10 ** (-prec) * 1e-3 * 1.0001
+            okx = self.fact_ok((stx[0], "L", slack), measure(px, "L"), "L")
+            oky = self.fact_ok((sty[0], "L", slack), rat(ev["y"]) * VOLPER[ev["solvent"]], "L")
+            if not (okx and oky) or m.group(2) != inst.subs[ev["solvent"]].name or m.group(4) != objs[ev["src"]].name:
+                self.report("C19", "dilution_amount_misstated", key,
+                            f"{out.call}: instruction {text!r}; actually {float(rat(ev['y']) * VOLPER[ev['solvent']] * inst.base_scale('L'))!r} L of solvent and {float(measure(px, 'L') * inst.base_scale('L'))!r} L of stock", ev, ctx["pre_key"])
 
     # ---- C05 / C12 ---------------------------------------------------------------------------------------------
     def conc_tol(self, t, nu, du):
         """relative tolerance for a stated concentration: the library rounds it to 10 decimals in base units."""
         base = abs(float(self.inst.conc_base(t, nu, du)))
-        return 1e-6 + (1e-10 / base if base > 0 else 0.0)
+        return 1e-6 + (self.P.quantum / base if base > 0 else 0.0)
+
+    def solution_acceptance_asserted(self, ev):
+        """an over-determined request (concentration AND quantity for two or more solutes) is consistent only up to
+        the library's rounding of the stated concentrations, which its own 1e-6 residual test may reject; acceptance
+        is asserted only where every stated concentration is >= 1e-2 in base units and the amounts are of ordinary
+        magnitude (DESIGN 4.2)."""
+        if len(ev["solutes"]) < 2 or ev["given"] != "cq":
+            return True
+        inst = self.inst
+        bases = [abs(float(inst.conc_base(rat(t), nu, du))) for t, nu, du in zip(ev["conc"], ev["nu"], ev["du"])]
+        qtys = [abs(float(rat(x) * inst.base_scale(u))) for x, u in zip(ev["qty"], ev["qu"])]
+        return min(bases) >= 1e-2 and max(qtys) <= 10
 
     def mon_c05(self, ctx):
         ev, out, objs, inst = ctx["ev"], ctx["out"], ctx["objs"], self.inst
@@ -830,8 +1003,7 @@ class LabReplay:
                 self.report("C05", "refusal_not_ValueError", dict(key, exc=type(out.exc).__name__), f"{out.call}: raised {type(out.exc).__name__}: {out.exc}", ev, ctx["pre_key"])
             return
         if not out.ok:
-            overdetermined = n >= 2 and ev["given"] == "cq"
-            if cls == "interior" and (well_scaled or not overdetermined):
+            if cls == "interior" and self.solution_acceptance_asserted(ev):
                 self.report("C05", "feasible_refused", dict(key, exc=type(out.exc).__name__), f"{out.call}: a mixture exists but the call raised {type(out.exc).__name__}: {out.exc}", ev, ctx["pre_key"])
             return
         res = out.new[ev["n"]]
